@@ -109,44 +109,61 @@ def coq_results(ctx, obs, chunk=40):
 
 
 # ============================================================================ classification of oracle verdicts
-def structural_focus(o, v):
-    """explanation of a verdict from structural facts alone (no Coq): stray offsets, exceptions, skipped tokens"""
-    src = o.src
+def explain_pair(o, reasons, kind, q, w):
+    """the finding a single disagreement is attributed to, or None.  `kind` is missing / extra, q the query token, w the
+    token that is wrongly absent from / present in rope's answer for q.  A disagreement is attributed to a finding only
+    (1) by an exact structural shape of these two tokens, or (2) when the Coq model speaks about both tokens (neither is
+    PUnmodelled / skipped) - the model has been compared with rope on this module and predicts this very answer - and
+    Coq reports one of the two tokens (or the object / callee name an attribute / keyword is evaluated through) outside
+    the theorems' domain for a recorded reason."""
     by_id = {t.id: t for t in o.tokens}
-    if v["kind"] in ("stray", "exception"):
-        return None             # nothing inside strings / comments may be reported, and no query may raise
-    for i in v["tokens"]:
-        if o.cat[i] == "kw" and o.key[i] == "U":
-            return "kwarg-unresolved-callee"
-    for i in v["tokens"]:
-        if o.cat[i] == "attr" and o.key[i] == "U" and by_id[i].name in o.info.class_global:
-            return "global-in-class-body-as-attribute"
-    for i in [v["query"]] + list(v["tokens"]):
+    # (1) exact shapes the model does not speak about
+    if kind == "extra" and o.cat[w] == "kw" and o.key[w] == "U":
+        return "kwarg-unresolved-callee"       # a keyword of a callee that is not static, reported for a non-parameter
+    for i in (q, w):
         k = o.key[i]
+        if o.cat[i] == "attr" and k == "U" and by_id[i].name in o.info.class_global and kind == "extra":
+            return "global-in-class-body-as-attribute"
         if o.cat[i] == "attr" and isinstance(k, tuple) and k[0] == "var" and (k[1], by_id[i].name) in o.info.hidden_attr:
             return "instance-attribute-assigned-in-for-or-with"
-    return None
+    # (2) predicted by the model
+    for i in (q, w):
+        # an attribute / keyword token the model is silent about, evaluated through an object / callee name that the
+        # model does speak about and puts outside the domain: the disagreement follows that name
+        b = o.info.base_of.get(i)
+        if (reasons.get(i) == 10 or i in o.skip) and b is not None and reasons.get(b, 0) not in (0, 10) and b not in o.skip:
+            r = reasons[b]
+            if r == 3 and class_env(o, by_id[b]):
+                return "header-class-attribute"
+            return REASON_FOCUS.get(r)
+    if reasons.get(q) == 10 or q in o.skip:
+        return None
+    if reasons.get(w) == 10 or w in o.skip:
+        # the model is silent about w.  Only when the oracle has no expectation for w either (its binding is not
+        # static) may the disagreement follow the query token, which the model puts outside the domain
+        r = reasons.get(q, 0)
+        return REASON_FOCUS.get(r) if (o.key[w] == "U" and kind == "extra" and r not in (0, 10)) else None
+    involved = [q, w] + [o.info.base_of[i] for i in (q, w) if o.info.base_of.get(i) is not None]
+    rs = sorted({reasons.get(i, 0) for i in involved} - {0, 10})
+    if not rs:
+        return None
+    focus = REASON_FOCUS.get(rs[0])
+    if rs[0] == 3 and any(reasons.get(i) == 3 and class_env(o, by_id[i]) for i in involved):
+        focus = "header-class-attribute"       # the header token's Python scope is a class body
+    return focus
 
 
 def classify(o, reasons):
-    """{focus: [verdicts]} ; focus None = unexplained"""
+    """{focus: [verdicts]} ; focus None = unexplained.  Every single (query, token) disagreement is explained on its own;
+    stray offsets and exceptions are never explained."""
     out = {}
-    by_id = {t.id: t for t in o.tokens}
     for v in L.judge(o):
-        focus = structural_focus(o, v)
-        if focus is None and v["kind"] in ("missing", "extra"):
-            involved = [v["query"]] + list(v["tokens"])
-            # an attribute / keyword token is evaluated through its object / callee name
-            involved += [o.info.base_of[i] for i in involved if o.info.base_of.get(i) is not None]
-            rs = sorted({reasons.get(i, 0) for i in involved} - {0, 10})
-            if rs:
-                focus = REASON_FOCUS.get(rs[0])
-                if rs[0] == 3:
-                    # which flavour of the header rule: a header token whose Python scope is a class body
-                    for i in involved:
-                        if reasons.get(i) == 3 and class_env(o, by_id[i]):
-                            focus = "header-class-attribute"
-        out.setdefault(focus, []).append(v)
+        if v["kind"] in ("stray", "exception"):
+            out.setdefault(None, []).append(v)
+            continue
+        for w in v["tokens"]:
+            focus = explain_pair(o, reasons, v["kind"], v["query"], w)
+            out.setdefault(focus, []).append({"kind": v["kind"], "query": v["query"], "tokens": [w]})
     return out
 
 
@@ -173,7 +190,7 @@ def patchedast_fails(src):
 def signature(obj):
     if obj.get("kind") == "history":
         return "answer-depends-on-query-history"
-    if obj.get("kind") == "project":
+    if obj.get("kind") in ("project", "sequence"):
         return obj.get("focus") or None
     if obj.get("kind") != "module":
         return None
@@ -200,8 +217,14 @@ def replay(ctx, obj):
         obs = L.observe_sequence(obj["files"], obj["lib2"])
         files = dict(obj["files"])
         files[L.LIBNAME] = obj["lib2"]
+        if obs is None:
+            return True
         fresh = L.observe_project(files)
-        return obs is None or any(o.rope2[t.id] != fresh[p].rope2[t.id] for p, o in obs.items() for t in o.tokens)
+        control = L.observe_project(files, passes=2)
+        bad_live = {(v["module"], v["query"]) for v in L.judge_project(obs)[0]}
+        bad_control = {(v["module"], v["query"]) for v in L.judge_project(control)[0]}
+        return any(o.rope2[t.id] != fresh[p].rope2[t.id] and o.rope2[t.id] != control[p].rope2[t.id]
+                   and (p, t.id) in bad_live and (p, t.id) not in bad_control for p, o in obs.items() for t in o.tokens)
     if obj.get("kind") == "project":
         if obj.get("lib2"):
             obs = L.observe_sequence(obj["files1"], obj["lib2"])
@@ -336,18 +359,50 @@ def check_modules(ctx, sources, stream):
             return
 
 
+def project_model_results(ctx, items, chunk=6):
+    """[(code, set of encoded unmodelled tokens)] of coq/C02/ProjectRunner.v for the observed projects"""
+    bodies = []
+    for i in range(0, len(items), chunk):
+        terms = [L.project_case_term(obs, L.project_keys(obs)) for (_files, obs) in items[i:i + chunk]]
+        bodies.append(L.HEADER2 + "Definition cases : list case2 := [\n%s\n].\nEval vm_compute in (mismatches2 cases).\n"
+                      "Eval vm_compute in (all_unmodelled2 cases).\n" % ";\n".join(terms))
+    outs = None
+    for attempt in range(4):
+        try:
+            outs = ctx.coq_files_parallel(bodies) if len(bodies) > 1 else [ctx.coq_file(b) for b in bodies]
+            break
+        except RuntimeError as e:
+            if attempt == 3 or not ("Sys_error" in str(e) or "inconsistent assumptions" in str(e)):
+                raise
+            import time
+            time.sleep(8)
+    res = []
+    for k, out in enumerate(outs):
+        ev = parse_evals(out)
+        mism = dict(ev[0])
+        for j, un in enumerate(ev[1]):
+            res.append((mism.get(j, 0), set(un)))
+    return res
+
+
 def check_projects(ctx, n):
-    """two-module projects: imports resolve. Oracle only (the Coq model is about one module); the reasons a token is
-    outside the domain still come from Coq, module by module"""
-    for _ in range(n):
-        files = c02_gen.gen_project(ctx.rng)
+    """two-module projects: imports of lib resolve.  The two-module MODEL (coq/C02/Project.v) is compared with rope's
+    answers over both files; the oracle judges every answer; the reasons a token is outside the theorems' domain come
+    from the one-module model, module by module"""
+    items = []
+    for k in range(n + 1):
+        # the example project of the non-vacuity lemma first, then generated ones
+        files = dict(c02_witness.EXAMPLE_PROJECT) if k == 0 else c02_gen.gen_project(ctx.rng)
         if files is None:
             continue
         obs = L.observe_project(files)
         if obs is None:
             ctx.count("untranslatable:multi")
             continue
-        judge_and_report(ctx, files, obs, "multi")
+        items.append((files, obs))
+    results = project_model_results(ctx, items) if items else []
+    for (files, obs), pm in zip(items, results):
+        judge_and_report(ctx, files, obs, "multi", project_model=pm)
         if ctx.too_many():
             return
 
@@ -368,21 +423,39 @@ def check_sequences(ctx, n):
         files = dict(files1)
         files[L.LIBNAME] = lib2
         fresh = L.observe_project(files)
-        stale = [(p, t.id) for p, o in obs.items() for t in o.tokens if o.rope2[t.id] != fresh[p].rope2[t.id]]
         ctx.count("sequence_queries_after_edit", sum(len(o.tokens) for o in obs.values()))
-        if stale:
-            p, i = stale[0]
-            ctx.violation({"kind": "sequence", "files": files1, "lib2": lib2, "focus": "stale-after-edit",
-                           "module": p, "token": i, "live": obs[p].rope2[i], "fresh": fresh[p].rope2[i]},
-                          "after lib.py was rewritten through rope the live project answers differently from a freshly "
-                          "opened one (%s token %d: %d stale answers)" % (p, i, len(stale)))
-        else:
-            judge_and_report(ctx, files, obs, "sequence", extra={"files1": files1, "lib2": lib2})
+        differing = [(p, t.id) for p, o in obs.items() for t in o.tokens if o.rope2[t.id] != fresh[p].rope2[t.id]]
+        ignore = set()
+        if differing:
+            # is it the edit, or only the fact that the project has answered queries before (open finding
+            # answer-depends-on-query-history)?  control: the final text in a project that answered every query once
+            control = L.observe_project(files, passes=2)
+            bad_live = {(v["module"], v["query"]) for v in L.judge_project(obs)[0]}
+            bad_control = {(v["module"], v["query"]) for v in L.judge_project(control)[0]}
+            stale = [(p, i) for (p, i) in differing
+                     if obs[p].rope2[i] != control[p].rope2[i] and (p, i) in bad_live and (p, i) not in bad_control]
+            ignore = {k for k in differing if k not in stale}
+            ctx.count("sequence_answers_depending_on_history", len(ignore))
+            if stale:
+                # attribute tokens go through rope's object inference, whose stored call information survives the edit
+                # (open finding stale-attribute-after-edit); any other token is a binding the edit cannot change
+                only_attr = all(obs[p].cat[i] == "attr" for (p, i) in stale)
+                p, i = stale[0]
+                ctx.violation({"kind": "sequence", "files": files1, "lib2": lib2,
+                               "focus": "stale-attribute-after-edit" if only_attr else "stale-after-edit",
+                               "module": p, "token": i, "live": obs[p].rope2[i], "fresh": fresh[p].rope2[i]},
+                              "after lib.py was rewritten through rope the live project answers wrongly where a freshly "
+                              "opened one and one that answered the same queries before answer rightly "
+                              "(%s token %d: %d stale answers)" % (p, i, len(stale)))
+                if ctx.too_many():
+                    return
+                continue
+        judge_and_report(ctx, files, obs, "sequence", extra={"files1": files1, "lib2": lib2}, ignore=ignore)
         if ctx.too_many():
             return
 
 
-def judge_and_report(ctx, files, obs, stream, extra=None):
+def judge_and_report(ctx, files, obs, stream, extra=None, project_model=None, ignore=()):
     if True:
         if any(isinstance(r, str) for o in obs.values() for r in o.rope2.values()) \
                 and any(patchedast_fails(s) for s in files.values()):
@@ -398,6 +471,20 @@ def judge_and_report(ctx, files, obs, stream, extra=None):
             ctx.count("skipped_outside_C15_fragment:" + stream)
             return
         ntok = sum(len(o.tokens) for o in obs.values())
+        unmodelled = None
+        if project_model is not None:
+            code2, unmodelled = project_model
+            ctx.traces += ntok - len(unmodelled)
+            ctx.count("multi_tokens_compared_with_project_model", ntok - len(unmodelled))
+            if code2 not in (0, 9):
+                c2, tok2 = code2 % 100, code2 // 100
+                ctx.violation(dict(extra or {}, kind="project", files=files, focus="coq2:%d" % c2, token=tok2, stream=stream,
+                                   broken="correspondence of coq/C02/Project.v with rope (%s): "
+                                          "C02_project_query_independent no longer speaks about the code"
+                                          % CODE_TEXT.get(c2, c2)),
+                              "two-module MODEL vs rope: %s (encoded token %d)" % (CODE_TEXT.get(c2, c2), tok2),
+                              no_input=True)
+                return
         ctx.case(tuple(sorted(files.items())), nontrivial=True)
         ctx.count("modules:" + stream, 2)
         ctx.count("queries", ntok)
@@ -405,57 +492,80 @@ def judge_and_report(ctx, files, obs, stream, extra=None):
         cross = sum(1 for o in obs.values() for r in o.rope2.values()
                     if not isinstance(r, str) and len({m for m, _ in r}) > 1)
         ctx.count("multi_queries_with_occurrences_in_both_modules", cross)
+        def reason_of(m, i):
+            r = reasons[m].get(i, 0)
+            k = keys.get((m, i))
+            if r == 8 and isinstance(k, tuple) and k[0] in (L.LIBNAME, "module"):
+                return 0        # this import resolves: the conflation of UNRESOLVED imports is no excuse
+            return r
+
+        def silent(m, i):
+            """the model does not speak about the token"""
+            # (the tokens kept out of the two-module comparison because of a same-line homonym are still tokens the
+            # one-module model speaks about)
+            return reasons[m].get(i) == 10 or i in obs[m].skip
+
+        def explain(kind, q, w):
+            """as explain_pair, for tokens of two modules: q, w are (module, token id)"""
+            (mq, iq), (mw, iw) = q, w
+            if kind == "extra" and obs[mw].cat[iw] == "kw" and keys[w] == "U":
+                return "kwarg-unresolved-callee"
+            for (m, i) in (q, w):
+                t = by_tok(obs[m], i)
+                k = obs[m].key[i]
+                if obs[m].cat[i] == "attr" and k == "U" and t.name in obs[m].info.class_global and kind == "extra":
+                    return "global-in-class-body-as-attribute"
+                if obs[m].cat[i] == "attr" and isinstance(k, tuple) and k[0] == "var" \
+                        and (k[1], t.name) in obs[m].info.hidden_attr:
+                    return "instance-attribute-assigned-in-for-or-with"
+            if same_line_homonym(obs, keys, [q, w]):
+                return "imported-name-same-line-homonym"
+            for (m, i) in (q, w):
+                b = obs[m].info.base_of.get(i)
+                if silent(m, i) and b is not None and not silent(m, b) and reason_of(m, b) not in (0, 10):
+                    r = reason_of(m, b)
+                    if r == 3 and class_env(obs[m], by_tok(obs[m], b)):
+                        return "header-class-attribute"
+                    return REASON_FOCUS.get(r)
+            if silent(*q):
+                return None
+            if silent(*w):
+                r = reason_of(*q)
+                return REASON_FOCUS.get(r) if (keys[w] == "U" and kind == "extra" and r not in (0, 10)) else None
+            inv = [q, w]
+            for (m, i) in (q, w):
+                b = obs[m].info.base_of.get(i)
+                if b is not None:
+                    inv.append((m, b))
+            rs = sorted({reason_of(m, i) for (m, i) in inv} - {0, 10})
+            if not rs:
+                return None
+            if rs[0] == 3 and any(reason_of(m, i) == 3 and class_env(obs[m], by_tok(obs[m], i)) for (m, i) in inv):
+                return "header-class-attribute"
+            return REASON_FOCUS.get(rs[0])
+
         seen = set()
         for v in verdicts:
-            o = obs[v["module"]]
-            focus = None
-            if v["kind"] in ("stray", "exception"):
-                focus = None
-            else:
-                involved = [(v["module"], v["query"])] + list(v["tokens"])
-                if focus is None:
-                    inv2 = list(involved)
-                    for (m, i) in involved:
-                        b = obs[m].info.base_of.get(i)
-                        if b is not None:
-                            inv2.append((m, b))
-                    def reason_of(m, i):
-                        r = reasons[m].get(i, 0)
-                        k = keys.get((m, i))
-                        if r == 8 and isinstance(k, tuple) and k[0] in (L.LIBNAME, "module"):
-                            return 0        # this import resolves: the conflation of UNRESOLVED imports is no excuse
-                        return r
-                    rs = sorted({reason_of(m, i) for (m, i) in inv2} - {0, 10})
-                    if rs:
-                        focus = REASON_FOCUS.get(rs[0])
-                        if rs[0] == 3 and any(reason_of(m, i) == 3 and class_env(obs[m], by_tok(obs[m], i)) for (m, i) in inv2):
-                            focus = "header-class-attribute"
-                if focus is None and same_line_homonym(obs, keys, involved):
-                    focus = "imported-name-same-line-homonym"
-                if focus is None:
-                    for (m, i) in involved:
-                        t = by_tok(obs[m], i)
-                        if obs[m].cat[i] == "kw" and keys[(m, i)] == "U":
-                            focus = "kwarg-unresolved-callee"
-                        k = obs[m].key[i]
-                        if obs[m].cat[i] == "attr" and isinstance(k, tuple) and k[0] == "var" \
-                                and (k[1], t.name) in obs[m].info.hidden_attr:
-                            focus = "instance-attribute-assigned-in-for-or-with"
-                        if obs[m].cat[i] == "attr" and k == "U" and t.name in obs[m].info.class_global:
-                            focus = "global-in-class-body-as-attribute"
-            if focus in seen:
+            if (v["module"], v["query"]) in ignore:
+                ctx.violation({"kind": "history", "focus": "answer-depends-on-query-history"}, "known departure: history")
                 continue
-            seen.add(focus)
-            if focus is None:
-                ctx.violation(dict(extra or {}, kind="project", files=files, focus="unexplained", verdict=v, stream=stream),
-                              "two-module project (" + stream + "): rope's occurrences differ from the binding map of the oracle (%s, %s token %r, %r)"
-                              % (v["kind"], v["module"], v["query"], v.get("tokens")))
-            elif focus.startswith("inherited:"):
-                ctx.count(focus)
-            else:
-                ctx.violation({"kind": "project" if focus == "imported-name-same-line-homonym" else "module",
-                               "files": files, "src": files["mod_under_test.py"], "focus": focus, "stream": stream},
-                              "known departure: " + focus)
+            pairs = [(None, None)] if v["kind"] in ("stray", "exception") else \
+                [((v["module"], v["query"]), tuple(w)) for w in v["tokens"]]
+            for (q, w) in pairs:
+                focus = None if q is None else explain(v["kind"], q, w)
+                if focus in seen:
+                    continue
+                seen.add(focus)
+                if focus is None:
+                    ctx.violation(dict(extra or {}, kind="project", files=files, focus="unexplained", verdict=v, stream=stream),
+                                  "two-module project (" + stream + "): rope's occurrences differ from the binding map of the "
+                                  "oracle (%s, %s token %r, %r)" % (v["kind"], v["module"], v["query"], w))
+                elif focus.startswith("inherited:"):
+                    ctx.count(focus)
+                else:
+                    ctx.violation({"kind": "project" if focus == "imported-name-same-line-homonym" else "module",
+                                   "files": files, "src": files["mod_under_test.py"], "focus": focus, "stream": stream},
+                                  "known departure: " + focus)
 
 
 def same_line_homonym(obs, keys, involved):
@@ -485,7 +595,21 @@ def by_tok(o, i):
     return None
 
 
+def ensure_project_runner():
+    """the proof gate builds Props/C02.vo and C02/Runner.vo; the two-module runner is built here when it is missing or
+    older than its source"""
+    from harness import common
+    vo = os.path.join(common.COQ, "C02", "ProjectRunner.vo")
+    src = os.path.join(common.COQ, "C02", "ProjectRunner.v")
+    deps = [os.path.join(common.COQ, "C02", f) for f in ("Project.v", "Occurrences.v", "Runner.v")] + [src]
+    if not os.path.exists(vo) or any(os.path.getmtime(d) > os.path.getmtime(vo) for d in deps):
+        rc, out = common.sh([os.path.join(common.COQ, "build.sh"), "C02/ProjectRunner.vo"], timeout=1800)
+        if rc != 0:
+            raise RuntimeError("cannot build C02/ProjectRunner.vo:\n" + out[-2000:])
+
+
 def run(ctx):
+    ensure_project_runner()
     ctx.rule = ("modules from harness/c02_gen.py (tiny shared identifier pool for variables, parameters, attributes and "
                 "keyword arguments; comments / strings / f-strings containing the identifiers), from the foreign "
                 "generator harness/c15_gen.py, and fixed modules; for every identifier token of every module "
